@@ -118,7 +118,43 @@ def build(config="plain"):
 
         def formula(p, period):
             return (p("base", period) > 1) + (p("base", period) > 2)
-    tbs.add_variables(salary, base, tax, net, status, fragile, wrapper, stock, flow, flags, deep)
+    class label(variables.Variable):
+        value_type = str
+        entity = person
+        definition_period = M
+
+    class flag(variables.Variable):
+        value_type = bool
+        entity = person
+        definition_period = M
+
+    class wide(variables.Variable):
+        value_type = int
+        entity = person
+        definition_period = M
+
+        def formula(p, period):
+            return numpy.array([3_000_000_000, 7], dtype=numpy.int64)
+
+    class twice_wide(variables.Variable):
+        value_type = float
+        entity = person
+        definition_period = M
+
+        def formula(p, period):
+            return p("wide", period) * 2.0
+
+    class midmonth(variables.Variable):
+        value_type = int
+        entity = person
+        definition_period = M
+
+        def formula_2015_03_15(p, period):
+            return p.filled_array(20)
+
+        def formula_2014_01_01(p, period):
+            return p.filled_array(10)
+    tbs.add_variables(salary, base, tax, net, status, fragile, wrapper, stock, flow, flags, deep, label, flag, wide, twice_wide, midmonth)
     if config == "neutralized":
         tbs.neutralize_variable("tax")
     if config == "neutralized-status":
@@ -187,6 +223,23 @@ def scenario_precedence():
     r = sim.calculate("flags", "2016-01")
     if str(r.dtype) != "int32" or r.tolist() != [1, 1]:
         problems.append(f"an int variable whose formula adds two comparisons yields {r!r}")
+    r = sim.calculate("label", "2016-01")
+    if r.dtype != object or r.tolist() != ["", ""]:
+        problems.append(f"a text variable without formula does not yield its default '' : {r!r}")
+    r = sim.calculate("flag", "2016-01")
+    if r.dtype != bool or r.tolist() != [False, False]:
+        problems.append(f"a boolean variable without formula does not yield its default False: {r!r}")
+    a, b = sim.calculate("wide", "2016-01"), sim.calculate("wide", "2016-01")
+    if str(a.dtype) != "int32" or a.tolist() != b.tolist():
+        problems.append(f"an int variable whose formula returns a wider integer array: first read {a!r}, second read {b!r}")
+    tbs5, sim5 = build()
+    first = sim5.calculate("twice_wide", "2016-01").tolist()
+    tbs6, sim6 = build()
+    sim6.calculate("wide", "2016-01")
+    if first != sim6.calculate("twice_wide", "2016-01").tolist():
+        problems.append(f"a dependant of an int variable depends on whether that variable was computed before: {first} vs {sim6.calculate('twice_wide', '2016-01').tolist()}")
+    if sim.calculate("midmonth", "2015-03").tolist() != [10, 10] or sim.calculate("midmonth", "2015-04").tolist() != [20, 20]:
+        problems.append(f"a formula starting on 2015-03-15 is in force for 2015-03: {sim.calculate('midmonth', '2015-03').tolist()} (the formula in force at the period's start gives 10)")
     # ADD over a year twice, then the first month again
     for k in range(2):
         y = sim.calculate_add("base", "2016")
@@ -208,6 +261,12 @@ def scenario_precedence():
     sim2.set_input("tax", "2016-01", numpy.array([1.0, 2.0]))
     if sim2.calculate("tax", "2016-01").tolist() != [0.0, 0.0]:
         problems.append("a neutralised variable does not yield its default")
+    for s_, bad in ((sim2, "2016"), (sim2, "month:2016-01:3"), (sim, "2016")):
+        try:
+            r = s_.calculate("tax", bad)
+            problems.append(f"a plain request of the monthly variable tax for the period {bad} returned {r.tolist()} instead of being refused")
+        except ValueError:
+            pass
     return problems
 
 
@@ -298,9 +357,29 @@ def scenario_trace():
     return problems
 
 
+def scenario_delete(config="plain"):
+    """deleting one definition period / a longer period removes exactly the stored periods inside, under the storage setting"""
+    import numpy
+    from openfisca_core import periods as P
+    problems = []
+    for target, gone, kept in (("2016-01", ["2016-01"], ["2016-02", "2010-01"]), ("2016", ["2016-01", "2016-02"], ["2010-01"])):
+        tbs, sim = build(config)
+        inputs(sim)
+        sim.delete_arrays("salary", target)
+        h = sim.persons.get_holder("salary")
+        for p in gone:
+            if h.get_array(P.period(p)) is not None:
+                problems.append(f"[{config}] after delete_arrays(salary, {target}) the value for {p} is still readable")
+        for p in kept:
+            if h.get_array(P.period(p)) is None:
+                problems.append(f"[{config}] delete_arrays(salary, {target}) also removed {p}")
+    return problems
+
+
 def run(call):
     try:
-        which = call.get("scenarios") or ["precedence", "order", "order-trace", "order-disk", "order-blacklist", "failure", "failure-trace", "trace"]
+        which = call.get("scenarios") or ["precedence", "order", "order-trace", "order-disk", "order-blacklist", "failure", "failure-trace", "trace",
+                                          "delete", "delete-disk"]
         problems = []
         for s in which:
             if s == "precedence":
@@ -311,6 +390,8 @@ def run(call):
                 problems += scenario_failure(s.split("-", 1)[1] if "-" in s else "plain")
             elif s == "trace":
                 problems += scenario_trace()
+            elif s.startswith("delete"):
+                problems += scenario_delete(s.split("-", 1)[1] if "-" in s else "plain")
             if problems:
                 break
         return {"kind": "return", "value": {"ok": not problems, "problems": problems[:3]}}
